@@ -24,6 +24,8 @@ CONST_ANCHORS = {
     "PENDING_OUTPUT_SIZE": ("src/network/protocol.rs", r"(const PENDING_OUTPUT_SIZE: usize = )(\d+)(;)"),
     "MAX_CHECKSUM_HISTORY_SIZE": ("src/network/protocol.rs", r"(pub const MAX_CHECKSUM_HISTORY_SIZE: usize = )(\d+)(;)"),
     "FRAME_WINDOW_SIZE": ("src/time_sync.rs", r"(const FRAME_WINDOW_SIZE: usize = )(\d+)(;)"),
+    # capacity of the container model (not a ggrs constant): entries per map/set
+    "VCOLL_CAP": ("src/vcoll.rs", r"(pub const CAP: usize = )(\d+)(;)"),
 }
 
 
